@@ -105,10 +105,12 @@ def evaluate(d, root, tier, props, do_import):
             rc, diff = sh(["git", "-C", wt, "diff"])
             with open(os.path.join(dest, "patch.diff"), "w") as f:
                 f.write(diff)
-            shutil.copy(demo, os.path.join(dest, "demo.py"))
+            if os.path.abspath(demo) != os.path.abspath(os.path.join(dest, "demo.py")):
+                shutil.copy(demo, os.path.join(dest, "demo.py"))
             notes = ""
             if os.path.exists(os.path.join(d, "notes.md")):
-                shutil.copy(os.path.join(d, "notes.md"), os.path.join(dest, "notes.md"))
+                if os.path.abspath(d) != os.path.abspath(dest):
+                    shutil.copy(os.path.join(d, "notes.md"), os.path.join(dest, "notes.md"))
                 notes = open(os.path.join(d, "notes.md")).read()
             head = sh(["git", "-C", REPO, "rev-parse", "--short", "HEAD"])[1].strip()
             meta_p = os.path.join(dest, "meta.json")
